@@ -222,12 +222,12 @@ def py_edges(m, s):
     return {t for a in range(m["K"]) if m["avail"][s][a] for t in range(m["N"]) if m["P"][s][a][t] > 0}
 
 
-def py_cut_results(m, c, variant):
+def py_cut_results(m, c):
     ab = {s for s in range(m["N"]) if m["abs"][s]}
     s0 = frozenset(s for s in range(m["N"]) if m["p0"][s] > 0)
     out = set()
     seen = set()
-    stack = [(frozenset(s0 if variant else s0 - ab), s0)]
+    stack = [(frozenset(s0 - ab), s0)]
     while stack:
         fr, vis = stack.pop()
         if (fr, vis) in seen:
@@ -245,7 +245,7 @@ def py_cut_results(m, c, variant):
 def py_views(m):
     N, K = m["N"], m["K"]
     ab = {s for s in range(N) if m["abs"][s]}
-    (reach,) = py_cut_results(m, INF, 0)
+    (reach,) = py_cut_results(m, INF)
     T = [[[m["P"][s][a][t] if m["avail"][s][a] else 0 for t in range(N)] for a in range(K)] for s in range(N)]
     R = [[[m["R"][s][a][t] if T[s][a][t] > 0 else 0 for t in range(N)] for a in range(K)] for s in range(N)]
     dead = {s for s in range(N) if not any(m["avail"][s])}
@@ -264,16 +264,15 @@ def py_views(m):
     return {"reach": set(reach), "T": T, "R": R, "absall": absall, "dead": dead, "cannot": cannot}
 
 
-def crosscheck(i, m, rec, cuts0, cuts1):
+def crosscheck(i, m, rec, cuts):
     pv = py_views(m)
     one = lambda xs: {x - 1 for x in xs}
     if one(rec["reach"]) != pv["reach"] or rec["T"] != pv["T"] or rec["R"] != pv["R"] \
             or one(rec["absall"]) != pv["absall"] or one(rec["dead"]) != pv["dead"] or one(rec["cannot"]) != pv["cannot"]:
         raise TLCFailure(f"TLA+ views and the independent Python oracle disagree on case {i}: {rec} vs {pv}")
     for k, c in enumerate(m["cuts"]):
-        for v, sets in ((0, cuts0), (1, cuts1)):
-            if sets[k] != {frozenset(x) for x in py_cut_results(m, c, v)}:
-                raise TLCFailure(f"TLA+ CutResults and the Python oracle disagree on case {i} cut {c} variant {v}")
+        if cuts[k] != {frozenset(x) for x in py_cut_results(m, c)}:
+            raise TLCFailure(f"TLA+ CutResults and the Python oracle disagree on case {i} cut {c}")
 
 
 # --------------------------------------------------------------------------------------------
@@ -616,7 +615,7 @@ def judge_cases(ctx, cases, *, real=None):
     batch = [c["m"] for c in cases]
     res = run_tlc(ctx.workdir / "mc", "C06_Views", CFG, files={"batch.json": batch},
                   env={"BATCH_FILE": "batch.json"}, coverage=(ctx.tier == "thorough"))
-    ctx.add_tlc(res, "mc: reachability machine (all pop orders x cut-offs x both initial-frontier variants), "
+    ctx.add_tlc(res, "mc: reachability machine (all pop orders x cut-offs), "
                      "array / derived / rebuild steps, views oracle")
     bad = [v for v in res.violated if v in DESIGN_INVS]
     if bad:
@@ -627,40 +626,37 @@ def judge_cases(ctx, cases, *, real=None):
         if r["kind"] == "views":
             views[r["iid"]] = r
         else:
-            mach.setdefault((r["iid"], r["cut"], r["variant"]), set()).add(frozenset(x - 1 for x in r["visited"]))
+            mach.setdefault((r["iid"], r["cut"]), set()).add(frozenset(x - 1 for x in r["visited"]))
     for i, c in enumerate(cases, start=1):
         m = c["m"]
         rec = views.get(i)
         if rec is None:
             raise TLCFailure(f"no views record for case {i}")
-        cuts0 = [{frozenset(x - 1 for x in s) for s in sets} for sets in rec["cuts0"]]
-        cuts1 = [{frozenset(x - 1 for x in s) for s in sets} for sets in rec["cuts1"]]
+        cuts = [{frozenset(x - 1 for x in s) for s in sets} for sets in rec["cuts"]]
         # the machine's terminal states are exactly the oracle's results (model-level cross-check)
         for k, cut in enumerate(m["cuts"]):
-            if mach.get((i, cut, 0), set()) != cuts0[k]:
-                raise TLCFailure(f"machine terminals != CutResults for case {i} cut {cut} variant 0")
-            if (i, cut, 1) in mach and mach[(i, cut, 1)] != cuts1[k]:
-                raise TLCFailure(f"machine terminals != CutResults for case {i} cut {cut} variant 1")
+            if mach.get((i, cut), set()) != cuts[k]:
+                raise TLCFailure(f"machine terminals != CutResults for case {i} cut {cut}")
         if i % 3 == 0 or len(cases) < 20:
-            crosscheck(i, m, rec, cuts0, cuts1)
+            crosscheck(i, m, rec, cuts)
             ctx.count("oracle_crosschecks")
-        if cuts1 != cuts0 or rec["reach1"] != rec["reach"]:
-            ctx.count("instances_where_expanding_absorbing_initial_states_changes_a_result")
+        for key in ("ghostout", "zeroout", "absinit"):       # corner inputs named by the quantifier
+            if rec[key]:
+                ctx.count(f"corner_{key}_instances")
         objs = real[i - 1] if real is not None else run_real(c, rec["const"])
         ctx.evaluations += sum(o.get("n", 0) for o in objs.values())
-        judge_one(ctx, i, c, rec, cuts0, cuts1, objs)
+        judge_one(ctx, i, c, rec, cuts, objs)
 
 
 class Judge:
-    def __init__(self, ctx, case, rec, cuts0, cuts1):
+    def __init__(self, ctx, case, rec, cuts):
         self.ctx, self.case, self.rec = ctx, case, rec
         self.m = m = case["m"]
         self.N, self.K = m["N"], m["K"]
         one = lambda xs: {x - 1 for x in xs}
-        self.reach, self.reach1 = one(rec["reach"]), one(rec["reach1"])
+        self.reach = one(rec["reach"])
         self.absall, self.dead, self.cannot = one(rec["absall"]), one(rec["dead"]), one(rec["cannot"])
-        self.ghostout, self.zeroout, self.absinit = one(rec["ghostout"]), one(rec["zeroout"]), one(rec["absinit"])
-        self.cuts0, self.cuts1 = cuts0, cuts1
+        self.cuts = cuts
         self.T, self.R, self.A = rec["T"], rec["R"], rec["A"]
         self.ok = True
         self.seen = set()
@@ -670,11 +666,8 @@ class Judge:
         if (obj, site, shape) in self.seen:       # one report per object, call site and shape
             return
         self.seen.add((obj, site, shape))
-        where = site
-        if shape in ROOT_SHAPES:        # defects of the shared base-class methods: one signature whatever the constructor
-            site = ROOT_SHAPES[shape] or site.split(".")[-1]
         site = site or "TabularMarkovDecisionProcess"
-        self.ctx.violation(f"C06:{site}:{shape}", f"{where or site}: {what}",
+        self.ctx.violation(f"C06:{site}:{shape}", f"{site}: {what}",
                            {"case": self.case, "object": obj, "clause": shape})
 
     # ---- reachability (tabular and non-tabular objects)
@@ -685,9 +678,7 @@ class Judge:
         elif "reach" in o:
             got = set(o["reach"])
             if got != self.reach:
-                if got == self.reach1 and self.absinit:
-                    shape = "absorbing-initial-state-expanded"
-                elif got - self.reach:
+                if got - self.reach:
                     shape = "unreachable-state-included"
                 else:
                     shape = "reachable-state-missing"
@@ -703,10 +694,9 @@ class Judge:
                 continue
             got = frozenset(o["cuts"][str(c)])
             s0 = {s for s in range(self.N) if m["p0"][s] > 0}
-            explained0, explained1 = got in self.cuts0[k], got in self.cuts1[k]
-            if explained0:
+            if got in self.cuts[k]:
                 continue
-            why = None
+            # not one of the results the cut-off admits (any pop order): wrong, whatever the reason
             if not (s0 <= got):
                 why = "initial support missing"
             elif not (got <= self.reach):
@@ -715,24 +705,13 @@ class Judge:
                 why = "cut although the limit was not reached"
             elif len(got) < min(c, len(self.reach)):
                 why = "stopped before the limit was reached"
-            admissible = sorted(map(sorted, self.cuts0[k]))
-            if explained1:
-                # the run is explained by the machine variant that also expands absorbing initial states
-                if why:
-                    self.fail(f"{site}.reachable_states" if site else "reachable_states", "absorbing-initial-state-expanded",
-                              f"max_states={c}: returned {sorted(got)}: {why}; only explained by expanding an absorbing "
-                              f"initial state (admissible results {admissible})", name)
-                else:   # only reachable states, limit honoured: which state was expanded is implementation-shaped
-                    self.ctx.drift("reachable_states-cutoff-expands-absorbing-initial-state",
-                                   {"case": digest(self.case), "cut": c, "got": sorted(got), "admissible": admissible})
-                continue
-            if why is None and len(got) > c:
+            elif len(got) > c:
                 why = "kept expanding after max_states states were known"
-            if why:
-                self.fail(j(site, "reachable_states"), "max_states-cutoff",
-                          f"max_states={c}: returned {sorted(got)}: {why} (admissible results {admissible})", name)
             else:
-                self.ctx.drift("reachable_states-cutoff-machine", {"case": digest(self.case), "cut": c, "got": sorted(got)})
+                why = "no order of expanding non-absorbing states produces this set"
+            self.fail(j(site, "reachable_states"), "max_states-cutoff",
+                      f"max_states={c}: returned {sorted(got)}: {why} (admissible results "
+                      f"{sorted(map(sorted, self.cuts[k]))})", name)
 
     # ---- functional interface of wrappers (QuickMDP, non tabular)
     def functional(self, name, o, site):
@@ -788,9 +767,7 @@ class Judge:
             return self._restore(before)
         want = listed_expected if listed_expected is not None else (set(range(self.N)) if explicit else self.reach)
         if set(sl) != want:
-            if not explicit and set(sl) == self.reach1 and self.absinit:
-                shape = "absorbing-initial-state-expanded"
-            elif set(sl) - want:
+            if set(sl) - want:
                 shape = "unreachable-state-included" if not explicit else "not-the-given-list"
             else:
                 shape = "reachable-state-missing" if not explicit else "not-the-given-list"
@@ -806,18 +783,10 @@ class Judge:
         if o.get("al_sorted") is False and o.get("actions_inferred"):
             ctx.drift("action_list-order", {"case": digest(self.case), "obj": name})
         L = set(sl)
-        # errors of the array builders: name the corner input
+        # errors of the array builders
         root = next((k for k in ("transition_matrix", "reward_matrix", "action_matrix", "initial_state_vec") if k in o["err"]), None)
         if root:
-            ghost = any(m["abs"][s] and any(self.T[s][a][t] > 0 and t not in L for a in range(self.K) for t in range(self.N)) for s in L)
-            zero = any(self.A[s][a] and m["Z"][s][a][t] and t not in L for s in L for a in range(self.K) for t in range(self.N))
-            if "KeyError" in o["err"][root] and ghost:
-                shape = "absorbing-successor-outside-state-list"
-            elif "KeyError" in o["err"][root] and zero:
-                shape = "zero-probability-successor-outside-state-list"
-            else:
-                shape = "error"
-            self.fail(j(site, root), shape, f"raised {o['err'][root]} (state list {sorted(sl)})", name)
+            self.fail(j(site, root), "error", f"raised {o['err'][root]} (state list {sorted(sl)})", name)
             ctx.skip("arrays not constructible: remaining array clauses of this object not compared")
             return self._restore(before)
         n, k = len(sl), len(al)
@@ -863,8 +832,6 @@ class Judge:
                                         ("reachable_state_vec", self.reach, "cell"),
                                         ("_unable_to_reach_absorbing", self.cannot, "cell")):
                 if bool(o[aname][si]) != (s in truth):
-                    if aname == "reachable_state_vec" and self.absinit and (s in self.reach1):
-                        shape = "absorbing-initial-state-expanded"
                     if aname == "_unable_to_reach_absorbing" and not self._closed(L):
                         ctx.skip("cannot-reach vector on a list that is not closed under successors: not compared")
                         continue
@@ -927,9 +894,9 @@ class Judge:
                               f"ValueIteration[{ver}] on the rebuilt MDP differs from the original: {p} vs {q}", name)
 
 
-def judge_one(ctx, i, c, rec, cuts0, cuts1, objs):
+def judge_one(ctx, i, c, rec, cuts, objs):
     m, rep = c["m"], c["rep"]
-    J = Judge(ctx, c, rec, cuts0, cuts1)
+    J = Judge(ctx, c, rec, cuts)
     explicit = bool(m["explicit"])
     allgood = True
     for name, o in objs.items():
@@ -975,18 +942,13 @@ def judge_one(ctx, i, c, rec, cuts0, cuts1, objs):
         ctx.nontrivial(digest([m, rep]))
     ctx.count(f"style_{c.get('style', '?')}")
     ctx.sample({"instance": {k: m[k] for k in ("N", "K", "PD", "GN", "GD", "ID", "abs", "avail", "P", "R", "p0", "Z", "Z0", "explicit", "cuts")},
-                "rep": rep, "reach": sorted(J.reach), "cut_results": [sorted(map(sorted, s)) for s in cuts0],
+                "rep": rep, "reach": sorted(J.reach), "cut_results": [sorted(map(sorted, s)) for s in cuts],
                 "real_state_list": objs.get("base", {}).get("sl")})
     return allgood
 
 
 def j(site, meth):
     return f"{site}.{meth}" if site else meth
-
-
-ROOT_SHAPES = {"absorbing-initial-state-expanded": "reachable_states",
-               "absorbing-successor-outside-state-list": None,
-               "zero-probability-successor-outside-state-list": None}
 
 
 def _site(kind):
